@@ -181,6 +181,23 @@ def fd_compare(fn, d, x, h, span):
     return "not-converged", last
 
 
+def fd_compare_one_sided(fn, d, x, h, span, sign):
+    """as `fd_compare` with the 4th-order ONE-SIDED stencil (sign = +1: points x, x+h, ..., x+4h): for the inner limit
+    of the derivative at an end of the support of a restricted function"""
+    def fdiff(hh):
+        hs = sign * hh
+        return (-25 * float(fn(x)) + 48 * float(fn(x + hs)) - 36 * float(fn(x + 2 * hs)) + 16 * float(fn(x + 3 * hs))
+                - 3 * float(fn(x + 4 * hs))) / (12 * hs)
+    last = None
+    for hh in (h, h / 2, h / 4, 2 * h):
+        fd1, fd = fdiff(hh), fdiff(hh / 2)
+        sc = max(1.0, abs(fd), max(abs(float(fn(x + sign * t))) for t in (0, 2 * hh, 4 * hh)) / span)
+        last = fd
+        if abs(fd1 - fd) <= 1e-7 * sc:
+            return ("ok" if abs(d - fd) <= 1e-6 * sc else "mismatch"), fd
+    return "not-converged", last
+
+
 def notaknot_knots(p, level, a, b):
     """knot vector of `GlobalBSplineGrid.compute_1D_quad_weights` / `BSplineGrid1D` for a complete level"""
     h = (b - a) / 2 ** level
@@ -415,6 +432,45 @@ def run_basis_case(ctx, drv, case):
     if worst is not None:
         ctx.violation("basis-derivative", tags, case, worst)
         ok = False
+    # ---- oracle: the derivative AT the knots.  Where the function is one polynomial (LagrangeBasis; the Lagrange-type
+    # levels of the hierarchical not-a-knot splines, modified or not) every knot -- the foreign knots, where the value
+    # is 0, and the domain ends -- is a smooth point: central differences.  For the restricted Lagrange functions the
+    # two ends of the support are foreign knots as well: the code returns the inner limit there (closed support), which is
+    # compared with one-sided differences from inside.
+    inner_obj = getattr(b, "spline", b)
+    poly_everywhere = type(inner_obj).__name__ == "LagrangeBasis" and case["cls"] in (
+        "LagrangeBasis", "HierarchicalNotAKnotBSpline", "HierarchicalNotAKnotBSplineModified")
+    knot_pts = []
+    if poly_everywhere and len(knots) >= 2:
+        knot_pts = [(k, 0) for k in knots]
+    elif case["cls"] == "LagrangeBasisRestricted" and len(knots) >= 2:
+        i0 = case["index"]
+        if i0 >= 1:
+            knot_pts.append((knots[i0 - 1], +1))
+        if i0 + 1 < len(knots):
+            knot_pts.append((knots[i0 + 1], -1))
+        knot_pts.append((knots[i0], 0 if 0 < i0 < len(knots) - 1 else (+1 if i0 == 0 else -1)))
+    if knot_pts:
+        gaps_k = [v - u for u, v in zip(knots, knots[1:]) if v - u > 0]
+        hk = min(gaps_k) * 2e-3
+        for xk, side in knot_pts:
+            try:
+                dk = float(b.get_first_derivative(xk))
+                if side == 0:
+                    stk, fdk = fd_compare(b, dk, xk, hk, span)
+                else:
+                    stk, fdk = fd_compare_one_sided(b, dk, xk, hk, span, side)
+            except Exception as e:
+                ctx.violation("basis-derivative", dict(tags, exc=exc_kind(e), at="knot"), case, {"x": xk, "exception": str(e)[:200]})
+                ok = False
+                break
+            ctx.count("fd_points_at_knots")
+            if stk != "ok":
+                ctx.violation("basis-derivative", dict(tags, at="knot") if stk == "mismatch" else dict(tags, at="knot", kind="finite-differences-do-not-converge"),
+                              case, {"x": xk, "knot_position": knots.index(xk) if xk in knots else None, "own_index": case["index"],
+                                     "get_first_derivative": dk, "finite_difference": fdk, "one_sided": side})
+                ok = False
+                break
     # ---- oracle: get_integral with the Gauss rule the grids use vs adaptive quadrature of the values
     from scipy import integrate as si
     import numpy.polynomial.legendre as legendre
